@@ -60,6 +60,25 @@ fn chk_deser(data: &[u8]) -> Option<Value> {
         Some(hit(json!({"bytes": data}), format!("consensus: {:?}", c), format!("tool: {:?}", t), "sexp_from_stream vs clvmr node_from_bytes on the same bytes"))
     } else { None }
 }
+// serialiser vs consensus serialiser for one atom length
+fn chk_ser_len(n: usize) -> Option<Value> {
+    use chialisp::classic::clvm::__type_compatibility__::Stream;
+    use chialisp::classic::clvm::serialize::sexp_to_stream;
+    let res = catch_unwind(move || {
+        let mut a = clvmr::Allocator::new();
+        let node = a.new_atom(&vec![0xaau8; n]).ok()?;
+        let want = clvmr::serde::node_to_bytes(&a, node).ok()?;
+        let mut st = Stream::new(None);
+        sexp_to_stream(&mut a, node, &mut st);
+        let got = st.get_value().data().clone();
+        if got != want { Some((want[..want.len().min(6)].to_vec(), got[..got.len().min(6)].to_vec(), want.len(), got.len())) } else { None }
+    });
+    match res {
+        Ok(Some((w, g, wl, gl))) => Some(hit(json!({"atom_length": n, "atom_fill": 170}), format!("consensus bytes start {:?} (total {})", w, wl), format!("tool bytes start {:?} (total {})", g, gl), "sexp_to_stream vs clvmr node_to_bytes")),
+        Err(_) => Some(hit(json!({"atom_length": n}), "no panic".into(), "panic".into(), "serialiser panicked")),
+        _ => None,
+    }
+}
 fn deser_inputs() -> Vec<Vec<u8>> {
     let mut v: Vec<Vec<u8>> = vec![];
     for b in 0u16..=0xff {
@@ -582,6 +601,9 @@ fn meaning_cases() -> Vec<(&'static str, &'static str, &'static str)> {
         ("(mod (X) (defun fact (N) (if (= N 1) 1 (* N (fact (- N 1))))) (fact X))", "(5)", "120"),
         ("(mod (X) (defmacro dbl (A) (qq (+ (unquote A) (unquote A)))) (dbl (* X 3)))", "(2)", "12"),
         ("(mod (X) (defconstant K 5) (defun-inline addk (A) (+ A K)) (addk (addk X)))", "(1)", "11"),
+        ("(mod (X) (defun-inline sel3 (((A B) C)) (list A B C)) (sel3 (list (list (+ X 1) (+ X 2)) (+ X 3))))", "(10)", "(11 12 13)"),
+        ("(mod (X) (defun-inline selp (((A . B) . C)) (list A B C)) (selp (c (c (+ X 1) (+ X 2)) (+ X 3))))", "(10)", "(11 12 13)"),
+        ("(mod (X) (defun-inline deep ((A (B (C D)) E)) (list A B C D E)) (deep (list 1 (list 2 (list 3 X)) 5)))", "(4)", "(1 2 3 4 5)"),
     ]
 }
 
@@ -762,8 +784,29 @@ fn chk_reader(text: &[u8]) -> Option<Value> {
     }
 }
 
+// ---- C20 at run time: the real tables are mutually inverse per version, monotone, and agree with prims()
+fn chk_tables() -> Option<Value> {
+    use chialisp::classic::clvm::{keyword_from_atom, keyword_to_atom};
+    for v in 0..=2usize {
+        let (from, to) = (keyword_from_atom(v), keyword_to_atom(v));
+        for (atom, name) in from.iter() { if to.get(name) != Some(atom) { return Some(hit(json!({"version": v, "opcode": atom, "name": name}), "name maps back to the opcode".into(), format!("{:?}", to.get(name)), "keyword_from_atom / keyword_to_atom")); } }
+        for (name, atom) in to.iter() { if from.get(atom) != Some(name) { return Some(hit(json!({"version": v, "name": name, "opcode": atom}), "opcode maps back to the name".into(), format!("{:?}", from.get(atom)), "keyword_to_atom / keyword_from_atom")); } }
+        if v > 0 { for (atom, name) in keyword_from_atom(v - 1).iter() { if from.get(atom) != Some(name) { return Some(hit(json!({"version": v, "opcode": atom, "name": name}), "later version keeps the entry".into(), format!("{:?}", from.get(atom)), "version monotonicity")); } } }
+    }
+    let to2 = keyword_to_atom(2);
+    for (name, val) in chialisp::compiler::prims::prims() {
+        let n = String::from_utf8_lossy(&name).to_string();
+        let code = match &val { chialisp::compiler::sexp::SExp::Integer(_, i) => i.to_signed_bytes_be(), _ => vec![] };
+        if to2.get(&n) != Some(&code) { return Some(hit(json!({"operator": n}), format!("classic opcode {:?}", to2.get(&n)), format!("modern compiler opcode {:?}", code), "compiler::prims::prims vs keyword_to_atom(2)")); }
+    }
+    None
+}
+
 pub fn search(name: &str, seed: u64) -> Value {
     match name {
+        "tables" | "prims_agree_with_kw" | "builders_select_same_rows_and_are_monotone" | "opcodes_pairwise_distinct" | "names_pairwise_distinct" | "selectors_agree" | "kw_rows_known_to_modern_compiler" | "stepper_constants_agree" => {
+            chk_tables().unwrap_or_else(|| nf("run-time tables are mutually inverse per version, monotone, and agree with prims()"))
+        }
         "reader_locs" => {
             let toks: Vec<&[u8]> = vec![b"(", b")", b" ", b"\t", b"\n", b"ab", b"x", b"12", b"0x1f", b"\"q s\"", b"'p'", b".", b";c\n"];
             let n = toks.len();
@@ -830,6 +873,9 @@ pub fn search(name: &str, seed: u64) -> Value {
                 ("(mod (X) (defconstant K 5) (defun-inline addk (A) (+ A K)) (addk (addk X)))", "(1)", "11"),
                 ("(mod (A B C D E F G H I J) (defun pick (A B C D E F G H I J) (list J I (+ A J) (* B I))) (pick A B C D E F G H I J))", "(1 2 3 4 5 6 7 8 9 10)", "(10 9 11 18)"),
                 ("(mod (L) (defun len (L) (if L (+ 1 (len (r L))) 0)) (defun sum (L) (if L (+ (f L) (sum (r L))) 0)) (c (len L) (sum L)))", "((1 2 3))", "(3 . 6)"),
+                ("(mod (X) (defun-inline sel3 (((A B) C)) (list A B C)) (sel3 (list (list (+ X 1) (+ X 2)) (+ X 3))))", "(10)", "(11 12 13)"),
+                ("(mod (X) (defun-inline selp (((A . B) . C)) (list A B C)) (selp (c (c (+ X 1) (+ X 2)) (+ X 3))))", "(10)", "(11 12 13)"),
+                ("(mod (X) (defun-inline deep ((A (B (C D)) E)) (list A B C D E)) (deep (list 1 (list 2 (list 3 X)) 5)))", "(4)", "(1 2 3 4 5)"),
             ];
             for (b, at, ex) in cases.iter() {
                 if let Some(mut v) = chk_meaning(b, None, at, ex) { v["input"] = json!({"program": b, "dialect": "classic", "args": at}); return v; }
@@ -837,14 +883,14 @@ pub fn search(name: &str, seed: u64) -> Value {
                 let r = catch_unwind(move || { let got = compile_and_run(&b2, true, &a2); let mut a = clvmr::Allocator::new(); let want = chialisp::classic::clvm_tools::binutils::assemble(&mut a, &e2).ok().and_then(|n| clvmr::serde::node_to_bytes(&a, n).ok()); (got, want) });
                 match r { Ok((Ok(g), w)) if g == w => {}, Ok((g, w)) => return hit(json!({"program": b, "dialect": "classic -O", "args": at}), format!("{} ({:?})", ex, w), format!("{:?}", g), "classic compile with optimisation + clvmr run"), Err(_) => return hit(json!({"program": b}), "no panic".into(), "panic".into(), "classic compile panicked") }
             }
-            nf("8 programs compiled by the classic compiler (plain and optimised) return the hand-computed values (which the cl21 build also returns, see source_meaning)")
+            nf("11 programs (incl. nested destructuring in inline parameters) compiled by the classic compiler (plain and optimised) return the hand-computed values (which the cl21 build also returns, see source_meaning)")
         }
         "source_meaning" => {
             for (b, at, ex) in meaning_cases() { for d in [Some("*standard-cl-21*"), Some("*standard-cl-23*")] {
                 if skipped(&json!({"program": b, "dialect": d, "args": at})) { continue; }
                 if let Some(mut v) = chk_meaning(b, d, at, ex) { v["input"] = json!({"program": b, "dialect": d, "args": at}); return v; }
             } }
-            nf("15 programs (functions, inlines, nested mod in main / in defun, destructuring, @ capture, rest arguments, let/let*, recursion, macro, constants) x cl21/cl23 return the hand-computed values")
+            nf("18 programs (functions, inlines, nested destructuring in inline parameters, nested mod in main / in defun, destructuring, @ capture, rest arguments, let/let*, recursion, macro, constants) x cl21/cl23 return the hand-computed values")
         }
         "opt_levels" => {
             let progs: Vec<(&str, Vec<&str>)> = vec![
@@ -958,9 +1004,11 @@ pub fn search(name: &str, seed: u64) -> Value {
             } }
             nf("stepper agrees with clvmr run_program on the enumerated programs x 4 environments")
         }
-        "atom_from_stream" | "sexp_from_stream" | "int_from_bytes" | "get_u32" | "read" => {
+        "atom_from_stream" | "sexp_from_stream" | "int_from_bytes" | "get_u32" | "read" | "atom_size_blob" => {
             for d in deser_inputs() { if let Some(v) = chk_deser(&d) { return v; } }
-            nf("sexp_from_stream agrees with clvmr node_from_bytes on the enumerated byte strings")
+            for n in [0usize, 1, 2, 0x3f, 0x40, 0x41, 0x1fff, 0x2000, 0x2001, 0xfffff, 0x100000, 0x100001] { if let Some(v) = chk_ser_len(n) { return v; } }
+            if thorough() { for n in [0x7ffffffusize, 0x8000000, 0x8000001] { if let Some(v) = chk_ser_len(n) { return v; } } }
+            nf("sexp_from_stream agrees with clvmr node_from_bytes on the enumerated byte strings; sexp_to_stream agrees with node_to_bytes at every length-class boundary up to 1 MiB (thorough: 128 MiB)")
         }
         "compose_paths" => {
             for p in 1..200 { for q in 1..200 {
